@@ -367,6 +367,41 @@ func (m *monC04) OnTransition(t *Transition) []Violation {
 				}
 			}
 			m.st.Inc("fixed_settlements")
+			// "ledger" scenarios without a bid fee: what a bidder really handed over (genesis balance minus
+			// current balance) against what they receive, independent of the records: the fixed price for the
+			// coins received plus, per recorded bid, less than one selling coin's worth (paying-denominated
+			// bids) or one paying unit (selling-denominated bids). A bid that was paid for and then lost from
+			// the records shows up here.
+			if t.Scen.Tags["ledger"] && t.Pre.BidFee.Get(a.PayDenom).Sign() == 0 {
+				for bidder := range want {
+					gen := new(big.Int)
+					if cs, ok := t.Scen.Cfg.Balances[world.NameOf(bidder)]; ok {
+						gen = cs.AmountOf(a.PayDenom).BigInt()
+					}
+					spent := ref.RatInt(ref.Sub(gen, t.Pre.BalOf(bidder, a.PayDenom)))
+					g := got[bidder]
+					if g == nil {
+						g = new(big.Int)
+					}
+					lo := ref.Mul(a.StartPrice, g)
+					slack := new(big.Rat)
+					for _, b := range t.Pre.Bids[a.ID] {
+						if b.Bidder != bidder {
+							continue
+						}
+						if b.Denom == a.PayDenom && a.StartPrice.Cmp(big.NewRat(1, 1)) > 0 {
+							slack.Add(slack, a.StartPrice)
+						} else {
+							slack.Add(slack, big.NewRat(1, 1))
+						}
+					}
+					hi := new(big.Rat).Add(lo, slack)
+					if spent.Cmp(lo) < 0 || (spent.Cmp(hi) >= 0 && spent.Cmp(lo) != 0) {
+						bad("fixed-paid-vs-received", "auction %d: %s handed over %s %s in all and receives %s coins at price %s (allowed: [%s, %s))", a.ID, world.NameOf(bidder), spent.FloatString(0), a.PayDenom, g, a.StartPrice.FloatString(6), lo.FloatString(6), hi.FloatString(6))
+					}
+					m.st.Inc("fixed_settlements_with_ledger")
+				}
+			}
 			continue
 		}
 		// batch: use the price the module itself reports for the pre-state book
